@@ -370,9 +370,10 @@ def selftest(chk: Check, traces):
         c = copy.deepcopy(tr)
         other = [p for p in ('p1', 'p2', 'p3') if p != c[i]['p'] and p not in
                  next(e for e in reversed(c[:i]) if e['ev'] == 'snap')['children']]
-        c[i]['p'] = other[0]
-        bad.append(c)
-        kinds.append('forward to a non-child')
+        if other:       # (every peer may be a child in the chosen trace: then this corruption kind is skipped)
+            c[i]['p'] = other[0]
+            bad.append(c)
+            kinds.append('forward to a non-child')
     tr, i = find(lambda tr, i, e: e['ev'] == 'reply' and e['vis'])
     if tr:
         c = copy.deepcopy(tr)
@@ -391,7 +392,7 @@ def selftest(chk: Check, traces):
         c[i]['user'] = 'p1'
         bad.append(c)
         kinds.append('reply under another name')
-    if len(bad) < 8:
+    if len(bad) < 7:
         if chk.violations:
             chk.cov['binding_selftest']['corrupted_traces_rejected'] = 'skipped: too few accepted executions to corrupt'
             return
